@@ -17,7 +17,7 @@ CLAIMED = {
                 "every path of every offered analytic integral, cache key/value correspondence and reset, result shape, and "
                 "parameter-dependence agreement of eval/eval_vectorized siblings. These are necessary conditions that hold for "
                 "every input/history because they hold on every CFG path; numerical equality (scalar vs vectorised, analytic vs "
-                "numerical integral) is NOT decided. Added during the build: single-point result is a copy (D7), declared output length (D8), vectorised buffer dtype (D9), dimension-subset index spaces and the sign exponent counting the subset it accompanies (D10).",
+                "numerical integral) is NOT decided. Added during the build: single-point result is a copy (D7), declared output length (D8), vectorised buffer dtype (D9), dimension-subset index spaces and the sign exponent counting the subset it accompanies (D10). Round 3: no evaluation / analytic-integral routine modifies a received sequence or a numpy view of it (D11); every return on the batch side of the dispatch is the reshaped array (D5); S1-S3.",
         "technique": "guard-correlated definite-assignment dataflow, CFG dominance, return-path analysis, value-term equality, "
                      "attribute-dependence comparison of sibling methods (stdlib ast)",
         "design_ref": "DESIGN.md section 3, C12",
@@ -29,7 +29,7 @@ CLAIMED = {
                 "neighbour is activated only after a loop over ALL dimensions found every backward neighbour in the OLD set or below "
                 "lmin; the stencil contribution is +1/-1 by stencil-sum parity (abstract interpretation, spelling-independent); the "
                 "stencil is {0} iff level <= lmin; returned grids pair key and coefficient. The arithmetic facts (coefficients sum to "
-                "1, closed form == adaptive initialisation) are NOT decided.",
+                "1, closed form == adaptive initialisation) are NOT decided. Round 3: observers do not modify the index sets, directly or through a local alias (D9); generic state rules S1-S3 over CombiScheme.",
         "technique": "who-may-write / escape analysis over the package, CFG dominance + post-dominance, value-term identity, parity "
                      "abstract interpretation of the sign expression, constant-set checks",
         "design_ref": "DESIGN.md section 3, C01",
@@ -40,7 +40,7 @@ CLAIMED = {
                 "empty, the loop visits the whole scheme without early exit (only zero-coefficient skips), and the update adds the "
                 "result computed for THIS element times THIS element's coefficient; perform_operation initialises before and reads the "
                 "result after the complete loop; points and weights use the same tensor enumerator, are filled from the same 1-D "
-                "source in the same loop, with the same boundary slice. Exactness / reproduction at grid points is NOT decided.",
+                "source in the same loop, with the same boundary slice. Exactness / reproduction at grid points is NOT decided. Round 3: the scheme combined by perform_operation is recomputed from this call's levels and the operation re-initialised on every path (D5), every run starts with a freshly allocated accumulator because get_result hands out the accumulator itself (D6), the (n_points, n_components) value buffer is never reshaped with the component count first (D7); generic state rules S1-S3.",
         "technique": "loop-shape and accumulator discipline on the CFG, same-object value terms, sibling agreement of enumerators "
                      "and slices",
         "design_ref": "DESIGN.md section 3, C02",
@@ -51,7 +51,7 @@ CLAIMED = {
                 "is clamped from below by a constant >= 1 and the left end point is appended unconditionally, so end points and the "
                 "root midpoint are in every component grid; apply_remove(sort=True) reaches the ascending re-sort after every step; the "
                 "scheme is re-read after every raise_lmax; the position-keyed caches are reset each step and have no other writer. "
-                "Monotone growth, coefficient sums and reproduction at the points are NOT decided.",
+                "Monotone growth, coefficient sums and reproduction at the points are NOT decided. Round 3: new dict caches are judged by the generic memoisation rule S2 (key covers the parameters, attribute inputs drop the cache), D5 demands the per-step reset only of caches that depend on what a refinement step changes; S1, S3.",
         "technique": "depends-only-on (use-site classification of a parameter), interval lower bound of the selection bound, constant "
                      "flag propagation, must-pass-through on the CFG, who-may-write",
         "design_ref": "DESIGN.md section 3, C03",
@@ -64,7 +64,7 @@ CLAIMED = {
                 "RefinementContainer mutates its list; lmax and object coarsening get the same positive increment; the margin-based "
                 "selection (benefit >= benefit_max*margin, cursor, exclusion of new children, loop until exhausted, do_refinement "
                 "always False, fresh benefit_max); every rebalancing level change is paired with the successor's shared end. The "
-                "binary-tree relation after rebalancing and tiling as numbers are NOT decided.",
+                "binary-tree relation after rebalancing and tiling as numbers are NOT decided. Round 3: removal is applied with sort=True on every path of the post-processing (D7, shared with C03.D3); S1-S3 over the refinement objects / containers.",
         "technique": "value-term identity, polynomial identity, guard-based interval reasoning, post-dominance, who-may-write, paired "
                      "stores with successor-index polynomial check",
         "design_ref": "DESIGN.md section 3, C06",
@@ -77,7 +77,7 @@ CLAIMED = {
                 "followed to its sources; start/end are written only by the constructor; the collision bookkeeping uses one "
                 "(coarsened, original) pair and is cleared when the coarsening of a live area changes; evaluation points are removed "
                 "from the candidate set once a child took them. Disjointness/union as geometry and coefficient sums per area are NOT "
-                "decided.",
+                "decided. Round 3: the forward-problem test of the counted coarsening loops reads the coarsening value the area was given, not the running counter (D7); evolved state (lmax) is initialised for a fresh start only (D8, shared with C14.D8); S1-S3.",
         "technique": "complementary-conditional and shared-term checks, field-invariant analysis over all stores with "
                      "inter-procedural argument following, init-only ownership, paired-call and set-difference idiom checks",
         "design_ref": "DESIGN.md section 3, C07",
@@ -87,7 +87,7 @@ CLAIMED = {
                 "reachable element store into the returned trapezoidal weight array adds a term that is >= 0 in the sign domain under the "
                 "sortedness axiom, and that axiom is an assertion dominating every weight computation in GlobalGrid.set_grid; (D2) the "
                 "weights are a function of the point set, the interval ends and the construction-time flag only (no attribute, level "
-                "array, cache or global read; flag init-only). Exactness of any 1-D rule is numerical and NOT decided. Added during the build: overlap-add of the split rule (D3), 3-/4-point modified-basis weights as polynomial identities (D4, followed into helpers), shared Gauss nodes not modified (D5), point-wise integrator skips only zero weights (D6), weight branches scaled alike (D7), and the Gauss rule for the moments is exact for every degree of the loop: 2 n(d) - 1 >= d decided per residue class of the integer variables under the loop guard (D8, sa/gauss.py).",
+                "array, cache or global read; flag init-only). Exactness of any 1-D rule is numerical and NOT decided. Added during the build: overlap-add of the split rule (D3), 3-/4-point modified-basis weights as polynomial identities (D4, followed into helpers), shared Gauss nodes not modified (D5), point-wise integrator skips only zero weights (D6), weight branches scaled alike (D7), and the Gauss rule for the moments is exact for every degree of the loop: 2 n(d) - 1 >= d decided per residue class of the integer variables under the loop guard (D8, sa/gauss.py). Round 3: whole-array forms of the trapezoidal rule (gaps g[1:] - g[:-1] of the sorted grid) are signed like the loop form; generic state rules S1-S3 over the global grids, integrators, hierarchisation and bases (a collocation-matrix cache that forgets the point levels is S2).",
         "technique": "CFG specialisation by a constant flag, sign abstract interpretation with a sortedness axiom, depends-only-on / "
                      "effect scan, init-only ownership",
         "design_ref": "DESIGN.md section 3, C09",
@@ -100,7 +100,7 @@ CLAIMED = {
                 "negative variance entries are flipped and the variance formula pairs matching indices; producer ([1,2]) and "
                 "consumers (first/second half at len//2) of the combined moment vector agree; midpoint fallbacks are taken only "
                 "after a < mid < b failed and the split asserts it. Sum == 1 with boundary, uniform agreement, equal-probability "
-                "split and affine covariance are numerical and NOT decided. Added during the build: closures kept beyond a loop iteration bind their loop-variant parameters at definition (D8); nodes, weights and model evaluations paired index by index are refreshed together on every path (D9); cached interval moments are keyed by the full interval and slot (D7). Round 2: no method of UncertaintyQuantification modifies a received sequence / call result or a view of it in place (D10, parameter-alias analysis; the variance is also accepted in whole-array form); distribution objects shared between dimensions are keyed by every loop-variant input of their construction (D11; found F-C15-1, repaired).",
+                "split and affine covariance are numerical and NOT decided. Added during the build: closures kept beyond a loop iteration bind their loop-variant parameters at definition (D8); nodes, weights and model evaluations paired index by index are refreshed together on every path (D9); cached interval moments are keyed by the full interval and slot (D7). Round 2: no method of UncertaintyQuantification modifies a received sequence / call result or a view of it in place (D10, parameter-alias analysis; the variance is also accepted in whole-array form); distribution objects shared between dimensions are keyed by every loop-variant input of their construction (D11; found F-C15-1, repaired). Round 3: vectorised clipping (mask assignment) and conditional-expression sign fixes are recognised as the same constructs as their loop forms; S1-S3.",
         "technique": "dominance of a sanitiser loop + sign domain, polynomial identity, normalisation idiom, guarded-store checks, "
                      "constant/slice layout agreement across producer and consumers",
         "design_ref": "DESIGN.md section 3, C15",
@@ -112,7 +112,7 @@ CLAIMED = {
                 "either incremental with paired removal or resets every accumulator it augments before each evaluation; any construct "
                 "that re-marks or re-evaluates all areas must reset the operation accumulator (three constructs violate this today: "
                 "known findings F-C05-1..3, each confirmed with a concrete doubled result); the dimension-adaptive integral cache is keyed "
-                "by the component it stores. Numerical equality with a from-scratch recomputation is NOT decided.",
+                "by the component it stores. Numerical equality with a from-scratch recomputation is NOT decided. Round 3: generic state rules S1 (mutable default objects that are grown / kept, e.g. a component-integral cache as default argument), S2 (memoisations new to the pinned tree), S3 (constructor arguments reach their attributes).",
         "technique": "value-term equality across accumulator stores, CFG dominance/pairing inside the removal loop, class-hierarchy "
                      "resolution of strategy hooks, must-pass-through (reset after re-mark) on the CFG",
         "design_ref": "DESIGN.md section 3, C05",
@@ -124,7 +124,7 @@ CLAIMED = {
                 "written back to the same positions, and both solve branches solve that system; the QR factors are defined on exactly "
                 "the paths that use them (guard-correlated definite assignment); integrate stores and the interpolation routines look "
                 "up surpluses under the same key, storing the integrator's surpluses after the integration. Unique solvability and "
-                "reproduction of polynomials are numerical and NOT decided. Added during the build: derivative recursions as formal derivatives (D5), per-grid surplus tables (D6), knot spacing of the area (D7), shared quadrature nodes not modified (D8), the stored Gauss rule leggauss(int(p/2)+1) is exact for degree p for every integer p (D9, sa/gauss.py).",
+                "reproduction of polynomials are numerical and NOT decided. Added during the build: derivative recursions as formal derivatives (D5), per-grid surplus tables (D6), knot spacing of the area (D7), shared quadrature nodes not modified (D8), the stored Gauss rule leggauss(int(p/2)+1) is exact for degree p for every integer p (D9, sa/gauss.py). Round 3: the value buffer handed to the in-place hierarchisation is a float array by construction (D11); whole-pole gather / scatter accepted in D2; S1-S3 (memoised collocation matrices).",
         "technique": "sibling agreement of filtered product loops, index dataflow by value terms, guard-correlated definite "
                      "assignment, key-term equality",
         "design_ref": "DESIGN.md section 3, C10",
@@ -136,7 +136,7 @@ CLAIMED = {
                 "points missing in the finer table), both as polynomial identities independent of spelling; the Romberg weight cache "
                 "is keyed by points and levels, its other inputs are init-only, and store/lookup use the same key; the tree "
                 "completion adds only the missing side at the mirror point over a snapshot of the nodes. Exactness to order 2m+1 etc. "
-                "is numerical and NOT decided.",
+                "is numerical and NOT decided. Round 3: normalised container levels of multi-slice containers come from the index structure, not from the tree levels (D7); S2 judges lazily memoised weights (every setter drops them) and keys of new weight caches; S1, S3.",
         "technique": "exhaustiveness of enum dispatch + return-on-all-paths, polynomial identity checking, cache-key coverage with "
                      "init-only ownership, complementary-branch checks",
         "design_ref": "DESIGN.md section 3, C11",
@@ -148,7 +148,7 @@ CLAIMED = {
                 "operand, stale count are caught while renamings / flipped comparisons are not), evaluated before refining; refine "
                 "only inside the loop; every error estimate's returned expression is >= 0 in the sign domain; the three global error "
                 "estimates share the None / absolute / relative-to-reference structure. Monotone point counts and count == distinct "
-                "evaluations are NOT decided.",
+                "evaluations are NOT decided. Round 3: one dictionary key per evaluated point on every path of Function.__call__ (D6, shared with C12.D4: the point count is the dictionary size); constructor arguments (norm, operation, ...) reach their attributes (S3); S1, S2.",
         "technique": "CFG dominance and must-pass-through, guard sets as normalised comparison terms with reaching-definition "
                      "resolution, sign abstract interpretation of return expressions, sibling agreement modulo renaming",
         "design_ref": "DESIGN.md section 3, C13",
@@ -159,7 +159,7 @@ CLAIMED = {
                 "extend-split and cell: known finding F-C14-1, both confirmed with concrete runs); save/restore dump the whole instance "
                 "and return the loaded object through the same file parameter and serialiser; all state the continuation reads is stored "
                 "on the instance by the initial call and is not re-initialised by the continuation; the meta container delegates marker "
-                "resets to every per-dimension container. Equality of final structures as values is NOT decided.",
+                "resets to every per-dimension container. Equality of final structures as values is NOT decided. Round 3: generic state rules S1-S3 over the driver, the operation, Function and the refinement containers / objects.",
         "technique": "typestate/event-adjacency on the CFG combined with per-strategy accumulator discipline, attribute "
                      "read-before-store over a two-call sequence, pairing check of dump/load sites",
         "design_ref": "DESIGN.md section 3, C14",
@@ -170,7 +170,7 @@ CLAIMED = {
                 "right-hand-side builders scales each entry by 1/len(data) exactly once (whole-vector scaling vs. the reuse branch's "
                 "per-entry scaling); at every accumulation the sign factor is the class label of the very sample being evaluated; the "
                 "normalising division is guarded by a non-zero test and uses the clipped values. The Gram entries, definiteness and "
-                "the agreement of the hat evaluations are numerical and NOT decided; nothing is claimed for the mass-lumped forms. Added during the build: the three hat evaluations count the centre of a hat exactly once (D7, sa/hats.py); the matrix-entry cache of the reuse branch holds lambda-free entries (D2, shared with C17.D1); uniform Gram constants as polynomial identities (D6). Round 2: cache hits receive lambda like misses (D2); the floor/ceil candidates of the per-sample right-hand-side path are de-duplicated so that a sample on a grid line names one hat (D7).",
+                "the agreement of the hat evaluations are numerical and NOT decided; nothing is claimed for the mass-lumped forms. Added during the build: the three hat evaluations count the centre of a hat exactly once (D7, sa/hats.py); the matrix-entry cache of the reuse branch holds lambda-free entries (D2, shared with C17.D1); uniform Gram constants as polynomial identities (D6). Round 2: cache hits receive lambda like misses (D2); the floor/ceil candidates of the per-sample right-hand-side path are de-duplicated so that a sample on a grid line names one hat (D7). Round 3: triangular loop pairs enumerate the whole triangle (D1 whole-triangle: no band); one cache object per dimension (D8, shared with C17.D5); S1-S3.",
         "technique": "paired-store check in triangular loops, guard analysis of lambda uses, exactly-once path argument on the CFG, "
                      "same-index (parallel array) checks, guarded-division check",
         "design_ref": "DESIGN.md section 3, C16",
@@ -181,7 +181,7 @@ CLAIMED = {
                 "same mirrored stores as a fresh value; (D2) an old right-hand-side entry is copied only for a point of the old grid "
                 "whose support domain matched in both ends and all dimensions, from the matched position; (D3) the hand-over empties the "
                 "old caches, refills them from all of the new ones under the same keys and restarts the new ones. Equality of results "
-                "with reuse on/off and small-grid vs large-grid equality are NOT decided. Added during the build: old support domains / old points come from the stored mesh of the same key as the copied right-hand side (D2); hat centre counted once in the implementations behind the small- and large-grid paths (D4); per-dimension caches are distinct objects (D5). Round 2: cache hits regularised like misses (D1); the old point list is listed from the old mesh like the current one from the current mesh, per boundary branch (D2; found F-C17-2, repaired); stored index ranges of the data bins contain both ends when sliced (D6, constants read off with the polynomial domain; found F-C17-1, repaired); each hat listed once per sample (D4).",
+                "with reuse on/off and small-grid vs large-grid equality are NOT decided. Added during the build: old support domains / old points come from the stored mesh of the same key as the copied right-hand side (D2); hat centre counted once in the implementations behind the small- and large-grid paths (D4); per-dimension caches are distinct objects (D5). Round 2: cache hits regularised like misses (D1); the old point list is listed from the old mesh like the current one from the current mesh, per boundary branch (D2; found F-C17-2, repaired); stored index ranges of the data bins contain both ends when sliced (D6, constants read off with the polynomial domain; found F-C17-1, repaired); each hat listed once per sample (D4). Round 3: S2 judges caches added to the density estimation / its base class (key covers parameters such as the mesh; attribute inputs drop the cache); pair routines receive the support of the hat they receive the point of, through local temporaries too.",
         "technique": "dominance + value-term checks around the cache store/read, guard-set and index checks of the copy, hand-over "
                      "assignment ordering on the CFG",
         "design_ref": "DESIGN.md section 3, C17",
@@ -191,7 +191,7 @@ CLAIMED = {
                 "(violated today: recorded known finding), every scaling attribute written by the scaling methods is carried by "
                 "_update_internal and every DataSet constructed in a DataSet method flows through it, samples and labels are always "
                 "rebuilt with the same selector (delete / slice / predicate / shuffle / swap), and remove_samples rejects before it stores. "
-                "Necessary conditions on every path; the numerical clauses (min/max on range ends, revert restores samples) are NOT decided. Added during the build: scaling bookkeeping (D5, branch membership by evaluating the tests over (override, scaled)); split_labels makes one piece per label value present, each piece holding exactly its samples (D6). Round 2: array ownership (D7): no in-place element store into the sample / label arrays of a DataSet that was not built from fresh arrays in the same function, and no in-place modification of attributes that _update_internal hands over by reference (found F-C18-2 and F-C18-3, both repaired); move_boundaries_to_front reorders both arrays with one permutation.",
+                "Necessary conditions on every path; the numerical clauses (min/max on range ends, revert restores samples) are NOT decided. Added during the build: scaling bookkeeping (D5, branch membership by evaluating the tests over (override, scaled)); split_labels makes one piece per label value present, each piece holding exactly its samples (D6). Round 2: array ownership (D7): no in-place element store into the sample / label arrays of a DataSet that was not built from fresh arrays in the same function, and no in-place modification of attributes that _update_internal hands over by reference (found F-C18-2 and F-C18-3, both repaired); move_boundaries_to_front reorders both arrays with one permutation. Round 3: D7 follows numpy views of the sample arrays (np.asarray / reshape / .T) and reports whole-array in-place updates through locals; S1-S3.",
         "technique": "field-sensitive guard dependence, attribute-set inclusion, must-pass-through on the CFG, selector value-term equality "
                      "for parallel arrays, dominance of raising guards over stores",
         "design_ref": "DESIGN.md section 3, C18",
@@ -201,7 +201,7 @@ CLAIMED = {
                 "package (effect analysis; this rule found the repaired test_data defect), learning-time scaling attributes are init-only "
                 "and re-applied by the same shift/scale/shift triple with consistent constants, _classificate takes the arg-max over all "
                 "classifiers on the class axis, evaluation summaries are computed from the same sequences and total, earlier calculated "
-                "classes are only extended, and only range-filtered data is classified. Correctness of densities / label = index is NOT decided. Added during the build: quantifier analysis of the out-of-range test (any / min below, any / max above, joined by or) in D6; unlabelled samples set aside (D7); memo tables of the density evaluation live no longer than the inputs of their values (D8). Round 2: learning-time scaling attributes are not stored again once _initialize used them (D2, None-guards correlated); calculated classes and stored testing data are extended by the same samples on the same paths (D5).",
+                "classes are only extended, and only range-filtered data is classified. Correctness of densities / label = index is NOT decided. Added during the build: quantifier analysis of the out-of-range test (any / min below, any / max above, joined by or) in D6; unlabelled samples set aside (D7); memo tables of the density evaluation live no longer than the inputs of their values (D8). Round 2: learning-time scaling attributes are not stored again once _initialize used them (D2, None-guards correlated); calculated classes and stored testing data are extended by the same samples on the same paths (D5). Round 3: removal thresholds lie strictly outside the learning range (D6); re-applying the learning scaling does not write into arrays handed in by the caller (D10, shared with C18.D7); S1-S3.",
         "technique": "method effect (purity) analysis + dropped-result scan, init-only ownership, sibling call-sequence agreement, value-term "
                      "pattern checks, def-use derivation from the out-of-range filter",
         "design_ref": "DESIGN.md section 3, C19",
@@ -212,7 +212,7 @@ CLAIMED = {
                 "default-construction defect), identical 1/m factor and design matrix on both sides of the normal equations in both "
                 "solvers with lambda on the selected matrix and plain lstsq iff lambda == 0, mirrored stores in triangular matrix "
                 "builders, and a sum-normalisation at every coefficient store of the six Opticom variants. Gram-matrix values and "
-                "definiteness are NOT decided. Added during the build: structure of the uniform gradient Gram matrix incl. the level of the integrated dimension (D5, known finding F-C20-2), hat centre counted once (D6), surpluses solved in the same call (D7), structure of the non-uniform smoothing matrix (D8, known findings F-C20-3a/b/c).",
+                "definiteness are NOT decided. Added during the build: structure of the uniform gradient Gram matrix incl. the level of the integrated dimension (D5, known finding F-C20-2), hat centre counted once (D6), surpluses solved in the same call (D7), structure of the non-uniform smoothing matrix (D8, known findings F-C20-3a/b/c). Round 3: triangular loop pairs of the matrix builders enumerate the whole triangle (D3 whole-triangle); S1 (surplus table as default argument), S2, S3.",
         "technique": "inter-procedural literal-kind dataflow, value-term decomposition of the normal equations, paired-store check in "
                      "triangular loops, reaching-definition based normalisation idiom",
         "design_ref": "DESIGN.md section 3, C20",
